@@ -19,6 +19,7 @@ type anyCache struct {
 	hc   *theine.HybridCache[int, int64]
 	hlc  *theine.HybridLoadingCache[int, int64]
 	sec  *monSecondary[int, int64]
+	workers int
 }
 
 type anyOpts struct {
@@ -57,6 +58,7 @@ func newAnyCache(kind string, o anyOpts) (*anyCache, error) {
 	if workers == 0 {
 		workers = 2
 	}
+	a.workers = workers
 	var err error
 	switch kind {
 	case "plain":
